@@ -21,7 +21,7 @@ import Enc.Spec.Known
 OUTSIDE the universe (the theorems do not apply; probed with `#guard`):
 
   L2  the message passed by pointer-to-pointer (`var p *Msg; Unmarshal(b, &p)`) and the EMPTY input: `Unmarshal`
-      returns before touching `p` (`if len(b) == 0 return nil`-shaped fast path, model `unmarshal`: `b.isEmpty → zeroOf
+      returns before touching `p` (`if len(b) == 0 return nil`-shaped fast path, model `unmarshalU`: `b.isEmpty → zeroOf
       t`), `p` stays nil; the reference yields a pointer to the zero message.  Every non-empty input agrees
       (`unmarshal_of_decode_ptrmsg_partial`).
   L3  fixed-size byte arrays `[n]byte`: a payload LONGER than `n` is accepted and silently truncated to its first `n`
@@ -69,7 +69,7 @@ theorem zeroRec_zeroNum (fs : Fields) : ZeroNum fs zeroRec :=
 
 /-- **L1**: `Unmarshal` accepts the input `00 01` for every message type of the universe and returns the zero message -/
 theorem field_zero_accepted (fs : Fields) (hty : tyOK (.struct fs) = true) :
-    unmarshal (.struct fs) zeroRec = .ok (zeroOf (.struct fs)) := by
+    unmarshalU (.struct fs) zeroRec = .ok (zeroOf (.struct fs)) := by
   have hlk : lookupField (fieldsOf 1 fs) 0 = none := by
     rw [lookupField_fieldsOf fs 0 hty, findField_zero fs hty]
   have h0 := vtok_byte 0 (by decide)
@@ -97,7 +97,7 @@ theorem field_zero_disagree (fs : Fields) (hty : tyOK (.struct fs) = true) : Dis
 def st (l : List (String × Ty)) : Ty :=
   .struct (l.foldr (fun (p : String × Ty) acc => Fields.cons "F" p.1 false p.2 acc) .nil)
 
-def showM (ty : Ty) (b : Bytes) : String := (unmarshal ty b).show Val.show
+def showM (ty : Ty) (b : Bytes) : String := (unmarshalU ty b).show Val.show
 def showS (ty : Ty) (b : Bytes) : String :=
   match Spec.Protobuf.decode ty b with | some v => "some:" ++ v.show | none => "none"
 def both (ty : Ty) (h : String) : String :=
@@ -108,21 +108,21 @@ def both (ty : Ty) (h : String) : String :=
 def agree (ty : Ty) (h : String) : Bool :=
   match fromHex h with
   | none => false
-  | some b => match unmarshal ty b, Spec.Protobuf.decode ty b with
+  | some b => match unmarshalU ty b, Spec.Protobuf.decode ty b with
     | .ok v, some v' => v.show == v'.show
     | _, _ => false
 /-- both reject -/
 def bothReject (ty : Ty) (h : String) : Bool :=
   match fromHex h with
   | none => false
-  | some b => match unmarshal ty b, Spec.Protobuf.decode ty b with
+  | some b => match unmarshalU ty b, Spec.Protobuf.decode ty b with
     | .err _, none => true
     | _, _ => false
 /-- the Go decoder accepts, the reference rejects -/
 def modelOnly (ty : Ty) (h : String) : Bool :=
   match fromHex h with
   | none => false
-  | some b => match unmarshal ty b, Spec.Protobuf.decode ty b with
+  | some b => match unmarshalU ty b, Spec.Protobuf.decode ty b with
     | .ok _, none => true
     | _, _ => false
 
